@@ -29,10 +29,30 @@ HISTORY = {
     "C03-d": "round 4 (blind): caught on the first run.", "C06-d": "round 4 (blind): caught on the first run (truncated paths of the relational scenario).",
     "C02-d": "round 4 (blind): caught on the first run.", "C16-d": "round 4 (blind): caught on the first run.", "C13-d": "round 4 (blind): caught on the first run.",
     "C03-d2": "round 4: run after the rank-case premises had been made explicit (C01-d); caught.",
+    "C07-e": "round 5 (blind): caught on the first run.",
+    "C09-e": "round 5 (blind): NO VERDICT on the first run (exit 2): Engine M saw the deviation in the MIR (a path that continues after `expect`, which it havocked) but the native replay scenario did not reproduce it, and the native fault grid injected failures at call indices 0..25 only while the trigger sits at the optimizer's final re-application (call 132 of 138 in the grid's model). Strengthened: `expect`/`unwrap` are summarised with their panic path; the native grid (`faultsweep`) counts the calls of the fault-free run and injects a failure at EVERY index, from several starting points; a panic path of the MIR is reported when that sweep reproduces a panic.",
+    "C10-e": "round 5 (blind): MISSED (exit 0): the symbolic derivative matrices never had an identically vanishing column, so the sparsity pattern detected at the first Jacobian was always 'all columns'. Strengthened: configurations `zero_d` (a derivative column that is exactly zero at the first parameters only) in the update-history tier.",
+    "C17-e": "round 5 (blind): caught on the first run (evaluations after a rejected set_params).",
+    "C18-e": "round 5 (blind): MISSED (exit 0): `Float::is_normal` was constant `true` on the symbolic scalar and no configuration used an exactly-zero threshold. Strengthened: is_normal is the recorded decision `!= 0` (over the reals), and configurations with epsilon(0) were added. Subnormal thresholds remain outside a real-arithmetic engine (stated).",
+    "C12-e": "round 5 (blind): caught on the first run (panic for N < M+P).",
+    "C04-e": "round 5 (blind): MISSED (exit 0): nothing counted model evaluations against the caller's budget. Strengthened: scenario `symfit` (the real fit() with the real Levenberg-Marquardt driver on the symbolic scalar) counts model evaluations per explored path against patience*(P+1) and decides the remaining clauses of C04 (returned state coherent, objective = 1/2||r||^2, objective <= objective at the initial guess) with the solver.",
+    "C13-e": "round 5 (blind): caught on the first run (native validation at extreme weight scales).",
+    "C15-e": "round 5 (blind): caught on the first run.",
+    "C08-e": "round 5 (blind): MISSED (exit 0): no check exercised fewer observations than basis functions outside the thorough tier. Strengthened: C08 now runs the symbolic `core` scenario on degenerate shapes (N < M, N = M, N = 1) and a native grid `shapes` (N = 1..5, P = 0..3, all four flavours, weights, statistics).",
     "C04-a": "first evaluation design: Engine M alone reported it but its native replay scenario did not cover LostPatience; the native scenario fitmap now enumerates all 13 termination reasons.",
 }
 AFTER = {"C01-d": "/tmp/seb_C01-d_after.txt", "C15-d": "/tmp/seb_C15-d_after.txt", "C14-d": "/tmp/seb_C14-d_after.txt"}
 SUMMARY = {
+    "C07-e": ("shared Jacobian helper with a 'fast path' for S > M whose gemm has alpha and beta swapped", "strictly more right-hand sides than basis functions"),
+    "C09-e": ("fit_with_statistics: `let Some(coefficients) = .. else return Err` replaced by `.expect(..)`", "a model failure exactly at the optimizer's final re-application of the accepted parameters"),
+    "C10-e": ("sparsity pattern of the derivative matrices detected at the first jacobian() call and cached in a OnceLock", "a derivative column that is exactly zero at the parameters of the first jacobian() call"),
+    "C17-e": ("a rejected set_params is remembered and eval()/eval_partial_deriv() return that error until a valid vector is set", "wrong-length set_params followed by an evaluation"),
+    "C18-e": ("epsilon() keeps |eps| only if it is_normal(): zero and subnormal thresholds fall back to machine epsilon", "epsilon(0.0) and a singular value at or below machine epsilon"),
+    "C12-e": ("(H^T H)^-1 via the QR factor, moved ahead of the under-determination check", "strictly N < M+P"),
+    "C04-e": ("set_params evaluates the model twice per trial point (helper called for the SVD and again for the residuals)", "counting model evaluations against a small caller-supplied patience"),
+    "C13-e": ("sigma set to 0 when the reduced chi^2 is below machine epsilon", "a good fit of small-scale data (reduced chi^2 <= eps)"),
+    "C15-e": ("derivatives wrapped through a new helper that drops the arity check of derivative callables", "a correctly named partial_deriv whose callable has the wrong arity"),
+    "C08-e": ("sequential jacobian() uses a scratch buffer sized M x S assuming U has M columns", "fewer observations than basis functions"),
     "C15-d": ("initial_parameters() skips its length check when called directly after function()/partial_deriv()", "a wrong-length initial guess supplied right after a function"),
     "C02-d": ("residuals cached as Y_w - U(U^T Y_w) (third independent occurrence of this idea)", "a truncated singular value"),
     "C16-d": ("'skip the temporary Vec' fast path passing params[first..=last] (third independent occurrence)", "arity >= 4, endpoints fixed, middle shuffled"),
